@@ -171,6 +171,15 @@ func c12RunHistory(cs c12Case, shared []*regexp2.Regexp, o *core.Outcome) {
 			}
 			got = callmix.Exec(re, st)
 			want = callmix.Exec(iso, st)
+			// A timed call is allowed to time out once its timeout has elapsed; on a loaded machine a short
+			// call can be descheduled for longer than the 5 ms timeout of the timed spec. Only a difference
+			// that persists over three more executions of the step on both Regexps is a difference.
+			for retry := 0; retry < 3 && got != want && spec.TimeoutMs > 0 &&
+				(strings.HasSuffix(got, " timeout") != strings.HasSuffix(want, " timeout")); retry++ {
+				time.Sleep(20 * time.Millisecond)
+				got = callmix.Exec(re, st)
+				want = callmix.Exec(iso, st)
+			}
 			if got == want {
 				// also the literal statement: a fresh Regexp with the same options (it shares the global pools)
 				fresh, err := spec.Compile()
